@@ -504,7 +504,8 @@ def merge_rotations(circuit: Circuit):
     # TODO: could extend to other variational gates, standard or native to some devices (XX, etc)
     rot_gates = {"RX", "RY", "RZ", "CRX", "CRY", "CRZ", "PHASE", "CPHASE"}
 
-    for gi, gate in enumerate(circuit):
+    # Work on copies of the gates: parameters are accumulated in place below, the input circuit must not change
+    for gi, gate in enumerate(copy.deepcopy(circuit._gates)):
         merge_gate = False
 
         # Identify qubits the current gate acts on.
